@@ -21,6 +21,7 @@ import (
 	"fmt"
 	"github.com/echovault/sugardb/internal"
 	"github.com/echovault/sugardb/internal/clock"
+	"github.com/echovault/sugardb/internal/verif"
 	"io"
 	"io/fs"
 	"log"
@@ -231,6 +232,7 @@ func (engine *Engine) TakeSnapshot() error {
 	if snapshotHash == manifest.LatestSnapshotHash {
 		return errors.New("nothing new to snapshot")
 	}
+	verif.Point("snap.copied")
 
 	// Update the snapshotObject
 	snapshotObject.LatestSnapshotMilliseconds = msec
@@ -247,6 +249,7 @@ func (engine *Engine) TakeSnapshot() error {
 		log.Println(err)
 		return err
 	}
+	verif.Point("snap.manifest.create")
 
 	// Write the latest manifest data
 	manifest = &Manifest{
@@ -262,6 +265,7 @@ func (engine *Engine) TakeSnapshot() error {
 		log.Println(err)
 		return err
 	}
+	verif.Point("snap.manifest.write", len(mo))
 	if err = mf.Sync(); err != nil {
 		log.Println(err)
 	}
@@ -269,12 +273,14 @@ func (engine *Engine) TakeSnapshot() error {
 		log.Println(err)
 		return err
 	}
+	verif.Point("snap.manifest.sync")
 
 	// Create snapshot directory
 	dirname = path.Join(engine.directory, "snapshots", fmt.Sprintf("%d", msec))
 	if err := os.MkdirAll(dirname, os.ModePerm); err != nil {
 		return err
 	}
+	verif.Point("snap.mkdir")
 
 	// Create snapshot file
 	f, err := os.OpenFile(path.Join(dirname, "state.bin"), os.O_WRONLY|os.O_CREATE, os.ModePerm)
@@ -287,20 +293,24 @@ func (engine *Engine) TakeSnapshot() error {
 			log.Println(err)
 		}
 	}()
+	verif.Point("snap.state.create")
 
 	// Write state to file
 	if _, err = f.Write(out); err != nil {
 		return err
 	}
+	verif.Point("snap.state.write", len(out))
 	if err = f.Sync(); err != nil {
 		log.Println(err)
 	}
+	verif.Point("snap.state.sync")
 
 	// Set the latest snapshot in unix milliseconds
 	engine.setLatestSnapshotTimeFunc(msec)
 
 	// Reset the change count
 	engine.resetChangeCount()
+	verif.Point("snap.done", msec)
 
 	return nil
 }
